@@ -217,14 +217,30 @@ class InspectFunctionIndirect(object):
         fun_path: CanonicalPath,
         call_stack: List[CanonicalPath],
     ) -> FunctionIndirectInteractions:
-        # Look into the base classes first.
-        # TODO: take into account the base classes
-
         # All the body is considered as a single big function for the purpose of
         # code structure: the function interactions are built for each element,
         # but the code lines are provided from the top of the function.
 
         method_fis: List[FunctionIndirectInteractions] = []
+        # The base classes defined in the accepted packages: their methods are inherited.
+        for base in node.bases:
+            if not isinstance(base, (ast.Name, ast.Attribute)):
+                continue
+            base_local_path = LocalDepPath(
+                PurePosixPath("/".join(_function_name(base)))
+            )
+            z = ObjectRetrieval.retrieve_object(base_local_path, mod, gctx)
+            if (
+                isinstance(z, AuthorizedObject)
+                and inspect.isclass(z.object_val)
+                and z.resolved_path != fun_path
+                and z.resolved_path not in call_stack
+            ):
+                method_fis.append(
+                    _introspect_class(
+                        z.object_val, gctx, call_stack + [fun_path]
+                    )
+                )
         for elem in node.body:
             if isinstance(elem, ast.FunctionDef):
                 # Parsing the function call
